@@ -345,6 +345,15 @@ def run_unit(unit_path, outdir, repo=REPO, rlimit=None, threads=None, keep=True)
         obligations.append(dict(base, id="%s::%s::body-safe" % (name, iid),
                                 text="callee preconditions, no overflow/panic, loop invariants, termination",
                                 ok=(not other_fail), detail=other_fail))
+    if g.u.get("lemma_only"):
+        # obligations = the proof fns of the lemma files (they do not read /repo: a failure is a framework defect)
+        for full, okf in sorted(fsucc.items()):
+            fn = full.split("::")[-1]
+            if fn.startswith("probe_"):
+                continue
+            obligations.append(dict(unit=name, item=fn, file="/verif/verus/lemmas", props=g.u.get("lemma_props", []),
+                                    verifier="verus", backend="z3", twin=None, scope="unbounded (layer-B lemma over step contracts)",
+                                    id="%s::%s" % (name, fn), text="lemma %s" % fn, ok=bool(okf), detail=[]))
     lemma_fail = [k for k, v in fail_by_item.items() if any(f["kind"] == "lemma" for f in v)]
     res["obligations"] = obligations
     res["failures"] = [o for o in obligations if not o["ok"]]
